@@ -1,5 +1,5 @@
 (* C09: one-hot encoding, rounding, decoding and snapping of mixed parameters. *)
-From Coq Require Import List QArith ZArith Bool Arith Qround Qabs SetoidList Lia Lra Psatz.
+From Coq Require Import List QArith ZArith Bool Arith Qround Qabs SetoidList Lia Lra Psatz Permutation Qpower.
 From LV Require Import Model.Domain Model.Decode Proofs.Domain.
 Import ListNotations.
 Open Scope Q_scope.
@@ -608,4 +608,682 @@ Proof.
   unfold snap_feasible. destruct (snap_pass d (length xs) rnds perms xs []) as [o p] eqn:E.
   destruct (snap_pass_ok d (length xs) xs xs rnds perms [] o p (fun x H => H) (Forall_nil _) E) as [A B].
   apply snap_fill_ok; assumption.
+Qed.
+
+(* ------------------------------------------------------------------ the stochastic decode at a one-hot vertex *)
+Definition nQ (n : nat) : Q := inject_Z (Z.of_nat n).
+Lemma nQ_S n : nQ (S n) == nQ n + 1.
+Proof. unfold nQ. rewrite Nat2Z.inj_succ. unfold Z.succ. rewrite inject_Z_plus. reflexivity. Qed.
+Lemma nQ_nonneg n : 0 <= nQ n.
+Proof. unfold nQ. change 0 with (inject_Z 0). rewrite <- Zle_Qle. lia. Qed.
+Lemma nQ_plus a b : nQ (a + b) == nQ a + nQ b.
+Proof. unfold nQ. rewrite Nat2Z.inj_add, inject_Z_plus. reflexivity. Qed.
+Lemma nQ_le a b : (a <= b)%nat -> nQ a <= nQ b.
+Proof. intros H. unfold nQ. rewrite <- Zle_Qle. lia. Qed.
+Lemma eps300_pos : 0 < eps300.
+Proof. unfold eps300, Qlt. cbn [Qnum Qden]. lia. Qed.
+
+(* contract of numpy.power on the two values a one-hot block holds: 0 ** e = 0 and 1 ** e = 1 for e > 0 *)
+Definition pow_contract (powf : Q -> Q -> Q) : Prop := forall e, 0 < e -> powf 0 e == 0 /\ powf 1 e == 1.
+
+Lemma eff_temp_pos T : 0 < eff_temp T.
+Proof.
+  unfold eff_temp, Qmaxb. match goal with |- context [Qle_bool ?a min_temp] => set (t := a) end.
+  destruct (Qle_bool t min_temp) eqn:E; [reflexivity|].
+  assert (H : Qltb min_temp t = true) by (unfold Qltb; rewrite E; reflexivity).
+  apply Qltb_lt in H. unfold min_temp in H. lra.
+Qed.
+
+Definition sumQ (l : list Q) : Q := fold_right Qplus 0 l.
+Lemma qsum_from l : forall acc, fold_left (fun a b => Qred (a + b)) l acc == acc + sumQ l.
+Proof.
+  induction l as [|x l IH]; intros acc; [simpl; ring|]. cbn [fold_left]. rewrite IH, Qred_correct. simpl. ring.
+Qed.
+Lemma qsum_sumQ l : qsum l == sumQ l.
+Proof. unfold qsum. rewrite qsum_from. ring. Qed.
+Lemma sumQ_app a b : sumQ (a ++ b) == sumQ a + sumQ b.
+Proof. induction a as [|x a IH]; simpl; [ring|]. rewrite IH. ring. Qed.
+Lemma sumQ_repeat w n : sumQ (repeat w n) == nQ n * w.
+Proof. induction n as [|n IH]; [change (nQ 0) with 0; simpl; ring|]. cbn [repeat sumQ fold_right]. fold (sumQ (repeat w n)). rewrite IH, nQ_S. ring. Qed.
+Lemma map_repeat' {A B} (f : A -> B) a n : map f (repeat a n) = repeat (f a) n.
+Proof. induction n as [|n IH]; simpl; [reflexivity|rewrite IH; reflexivity]. Qed.
+
+(* numpy.random.choice: cdf.searchsorted(u, side="right") *)
+Lemma draw_ix_ge u : forall l acc i j, draw_ix u acc l i = Some j -> (i <= j)%nat.
+Proof.
+  induction l as [|a l IH]; intros acc i j H; cbn [draw_ix] in H; [discriminate|].
+  destruct (Qltb u (Qred (acc + a))); [injection H as <-; lia|]. apply IH in H. lia.
+Qed.
+Lemma draw_ix_skip u p0 l : 0 <= p0 -> forall a acc i, acc + nQ a * p0 <= u ->
+  exists acc', acc' == acc + nQ a * p0 /\ draw_ix u acc (repeat p0 a ++ l) i = draw_ix u acc' l (i + a)%nat.
+Proof.
+  intros Hp. induction a as [|a IH]; intros acc i H.
+  - exists acc. split; [change (nQ 0) with 0; ring|]. rewrite Nat.add_0_r. reflexivity.
+  - rewrite nQ_S in H. pose proof (Qmult_le_0_compat _ _ (nQ_nonneg a) Hp) as Hn.
+    cbn [repeat app draw_ix].
+    assert (E : Qltb u (Qred (acc + p0)) = false) by (apply Qltb_ge; rewrite Qred_correct; lra).
+    rewrite E. destruct (IH (Qred (acc + p0)) (S i)) as (acc' & Ha & Hd); [rewrite Qred_correct; lra|].
+    exists acc'. split; [rewrite Ha, Qred_correct, nQ_S; ring|]. rewrite Hd. f_equal. lia.
+Qed.
+Lemma draw_ix_low u p0 l : 0 <= p0 -> forall a acc i, acc <= u -> u < acc + nQ a * p0 ->
+  exists j, draw_ix u acc (repeat p0 a ++ l) i = Some j /\ (i <= j < i + a)%nat.
+Proof.
+  intros Hp. induction a as [|a IH]; intros acc i H1 H2.
+  - exfalso. change (nQ 0) with 0 in H2. lra.
+  - cbn [repeat app draw_ix]. destruct (Qltb u (Qred (acc + p0))) eqn:E; [exists i; split; [reflexivity|lia]|].
+    apply Qltb_ge in E. rewrite Qred_correct in E. rewrite nQ_S in H2.
+    destruct (IH (Qred (acc + p0)) (S i)) as (j & Hj & Hr); [rewrite Qred_correct; exact E|rewrite Qred_correct; lra|].
+    exists j. split; [exact Hj|lia].
+Qed.
+(* the draw lands on position a of  p0 ... p0 p1 rest  exactly when  a*p0 <= u < a*p0 + p1 *)
+Lemma draw_block u p0 p1 a rest : 0 <= p0 -> 0 <= p1 -> 0 <= u ->
+  (draw_ix u 0 (repeat p0 a ++ p1 :: rest) 0 = Some a <-> nQ a * p0 <= u /\ u < nQ a * p0 + p1).
+Proof.
+  intros Hp0 Hp1 Hu. split.
+  - intros H. split.
+    + destruct (Qlt_le_dec u (nQ a * p0)) as [L|L]; [|exact L]. exfalso.
+      destruct (draw_ix_low u p0 (p1 :: rest) Hp0 a 0 0%nat) as (j & Hj & Hr); [lra|lra|].
+      rewrite H in Hj. injection Hj as <-. lia.
+    + destruct (Qlt_le_dec u (nQ a * p0 + p1)) as [L|L]; [exact L|]. exfalso.
+      destruct (draw_ix_skip u p0 (p1 :: rest) Hp0 a 0 0%nat) as (acc' & Ha & Hd); [lra|].
+      rewrite Hd in H. cbn [draw_ix] in H.
+      assert (E : Qltb u (Qred (acc' + p1)) = false) by (apply Qltb_ge; rewrite Qred_correct, Ha; lra).
+      rewrite E in H. apply draw_ix_ge in H. simpl in H. lia.
+  - intros [L U]. destruct (draw_ix_skip u p0 (p1 :: rest) Hp0 a 0 0%nat) as (acc' & Ha & Hd); [lra|].
+    rewrite Hd. cbn [draw_ix].
+    assert (E : Qltb u (Qred (acc' + p1)) = true) by (apply Qltb_lt; rewrite Qred_correct, Ha; lra).
+    rewrite E. reflexivity.
+Qed.
+
+(* an exact one-hot block: a zeros, a one, b zeros *)
+Definition onehot (a b : nat) : row := repeat 0 a ++ 1 :: repeat 0 b.
+
+(* The probabilities rel_prob_func hands to numpy.random.choice at an exact one-hot vertex of a block of n = a+1+b categories:
+   every OTHER category gets 1e-300 / (1 + n*1e-300), which is NOT zero (the code adds 1e-300 to every weight); the category
+   of the vertex gets (1 + 1e-300) / (1 + n*1e-300). *)
+Theorem rel_probs_onehot powf T a b : pow_contract powf ->
+  exists p0 p1, rel_probs powf T (onehot a b) = repeat p0 a ++ p1 :: repeat p0 b /\
+                p0 == eps300 / (1 + nQ (a + 1 + b) * eps300) /\ p1 == (1 + eps300) / (1 + nQ (a + 1 + b) * eps300) /\
+                0 < p0 /\ 0 < p1.
+Proof.
+  intros Hpow. destruct (Hpow (/ eff_temp T) (Qinv_lt_0_compat _ (eff_temp_pos T))) as [H0 H1].
+  set (w0 := Qred (powf 0 (/ eff_temp T) + eps300)). set (w1 := Qred (powf 1 (/ eff_temp T) + eps300)).
+  set (s := qsum (repeat w0 a ++ w1 :: repeat w0 b)).
+  assert (Hw0 : w0 == eps300) by (unfold w0; rewrite Qred_correct, H0; ring).
+  assert (Hw1 : w1 == 1 + eps300) by (unfold w1; rewrite Qred_correct, H1; ring).
+  assert (Hs : s == 1 + nQ (a + 1 + b) * eps300).
+  { unfold s. rewrite qsum_sumQ, sumQ_app. cbn [sumQ fold_right]. fold (sumQ (repeat w0 b)). rewrite !sumQ_repeat, Hw0, Hw1, !nQ_plus.
+    change (nQ 1) with 1. ring. }
+  assert (Hpos : 0 < 1 + nQ (a + 1 + b) * eps300).
+  { pose proof (Qmult_le_0_compat _ _ (nQ_nonneg (a + 1 + b)) (Qlt_le_weak _ _ eps300_pos)). lra. }
+  exists (Qred (w0 / s)), (Qred (w1 / s)). split; [|split; [|split; [|split]]].
+  - unfold rel_probs, rel_weights, onehot. rewrite map_app. cbn [map]. rewrite !map_repeat'. fold w0 w1. fold s.
+    rewrite map_app. cbn [map]. rewrite !map_repeat'. reflexivity.
+  - rewrite Qred_correct, Hw0, Hs. reflexivity.
+  - rewrite Qred_correct, Hw1, Hs. reflexivity.
+  - rewrite Qred_correct, Hw0, Hs. apply Qlt_shift_div_l; [exact Hpos|]. pose proof eps300_pos. lra.
+  - rewrite Qred_correct, Hw1, Hs. apply Qlt_shift_div_l; [exact Hpos|]. pose proof eps300_pos. lra.
+Qed.
+
+(* the set of uniform draws for which numpy.random.choice returns position k of a block of n categories sitting at the one-hot
+   vertex k (division-free form of  k*p0 <= u < k*p0 + p1): a lower tail of width k*1e-300/(1+n*1e-300) and an upper tail of
+   width (n-k-1)*1e-300/(1+n*1e-300) are excluded *)
+Definition in_window (n k : nat) (u : Q) : Prop :=
+  nQ k * eps300 <= u * (1 + nQ n * eps300) /\ u * (1 + nQ n * eps300) < 1 + nQ (S k) * eps300.
+
+Lemma div_le_iff x u s : 0 < s -> (x / s <= u <-> x <= u * s).
+Proof.
+  intros Hs. split; intros H.
+  - assert (E : x == (x / s) * s) by (field; lra). rewrite E. apply Qmult_le_compat_r; [exact H|lra].
+  - apply Qle_shift_div_r; assumption.
+Qed.
+Lemma lt_div_iff x u s : 0 < s -> (u < x / s <-> u * s < x).
+Proof.
+  intros Hs. split; intros H.
+  - assert (E : x == (x / s) * s) by (field; lra). rewrite E. apply Qmult_lt_compat_r; assumption.
+  - apply Qlt_shift_div_l; assumption.
+Qed.
+
+Theorem draw_onehot_iff powf T a b u : pow_contract powf -> 0 <= u ->
+  (draw_ix u 0 (rel_probs powf T (onehot a b)) 0 = Some a <-> in_window (a + 1 + b) a u).
+Proof.
+  intros Hpow Hu. destruct (rel_probs_onehot powf T a b Hpow) as (p0 & p1 & -> & H0 & H1 & Hp0 & Hp1).
+  rewrite draw_block by lra. unfold in_window. rewrite H0, H1.
+  pose proof eps300_pos as He. revert He. generalize eps300. intros eps He.
+  set (s := 1 + nQ (a + 1 + b) * eps).
+  assert (Hs : 0 < s) by (unfold s; pose proof (Qmult_le_0_compat _ _ (nQ_nonneg (a + 1 + b)) (Qlt_le_weak _ _ He)); lra).
+  assert (E1 : nQ a * (eps / s) == (nQ a * eps) / s) by (field; lra).
+  assert (E2 : nQ a * (eps / s) + (1 + eps) / s == (1 + nQ (S a) * eps) / s) by (rewrite nQ_S; field; lra).
+  rewrite E2, E1, div_le_iff, lt_div_iff by exact Hs. reflexivity.
+Qed.
+
+(* a sufficient, uniform condition: u in [n*1e-300, 1 - n*1e-300] *)
+Lemma in_window_uniform n m k u : (k < n)%nat -> (n <= m)%nat ->
+  nQ m * eps300 <= u -> u <= 1 - nQ m * eps300 -> in_window n k u.
+Proof.
+  intros Hk Hn L U. unfold in_window. pose proof eps300_pos as He. revert He L U. generalize eps300. intros eps He L U.
+  pose proof (nQ_le k n (Nat.lt_le_incl _ _ Hk)) as H1. pose proof (nQ_le n m Hn) as H2.
+  pose proof (nQ_nonneg k) as H3. pose proof (nQ_S k) as H4. revert L U H1 H2 H3 H4.
+  generalize (nQ k) (nQ n) (nQ m) (nQ (S k)). intros qk qn qm qsk L U H1 H2 H3 H4. rewrite H4.
+  assert (A1 : qk * eps <= qm * eps) by (apply Qmult_le_compat_r; lra).
+  assert (A2 : qn * eps <= qm * eps) by (apply Qmult_le_compat_r; lra).
+  assert (A3 : 0 <= qn * eps) by (apply Qmult_le_0_compat; lra).
+  assert (A6 : 0 <= qm * eps) by lra.
+  assert (A4 : 0 <= u) by lra.
+  assert (A5 : 0 <= u * (qn * eps)) by (apply Qmult_le_0_compat; assumption).
+  assert (A7 : u * (qn * eps) <= 1 * (qn * eps)) by (apply Qmult_le_compat_r; lra).
+  assert (A8 : 0 <= qk * eps) by (apply Qmult_le_0_compat; lra).
+  split; lra.
+Qed.
+
+(* ------------------------------------------------------------------ the encoder writes exact one-hot blocks *)
+Fixpoint find_pos (v : Q) (es : list Z) : nat :=
+  match es with [] => O | e :: r => if Qeq_bool v (inject_Z e) then O else S (find_pos v r) end.
+
+Lemma indicator_zeros v z : v == inject_Z z -> forall l, ~ In z l ->
+  map (fun e => if Qeq_bool v (inject_Z e) then 1 else 0) l = repeat 0 (length l).
+Proof.
+  intros Hv. induction l as [|e l IH]; intros Hn; [reflexivity|]. simpl.
+  destruct (Qeq_bool v (inject_Z e)) eqn:E.
+  - exfalso. apply Hn. left. apply Qeq_bool_iff in E. rewrite Hv in E. apply (proj1 (inject_Z_injective _ _)) in E. congruence.
+  - rewrite IH; [reflexivity|]. intros H. apply Hn. right. exact H.
+Qed.
+Lemma indicator_onehot v z : v == inject_Z z -> forall es, In z es -> NoDup es ->
+  map (fun e => if Qeq_bool v (inject_Z e) then 1 else 0) es = onehot (find_pos v es) (length es - find_pos v es - 1) /\
+  nth_error es (find_pos v es) = Some z /\ (find_pos v es < length es)%nat.
+Proof.
+  intros Hv. induction es as [|e r IH]; intros Hin Hnd; [destruct Hin|].
+  inversion Hnd as [|? ? Hne Hnr]; subst. cbn [map find_pos]. destruct (Qeq_bool v (inject_Z e)) eqn:E.
+  - apply Qeq_bool_iff in E. rewrite Hv in E. apply (proj1 (inject_Z_injective _ _)) in E. subst e.
+    rewrite (indicator_zeros v z Hv r Hne). unfold onehot. simpl. rewrite Nat.sub_0_r. repeat split; lia.
+  - destruct Hin as [->|Hin].
+    + exfalso. assert (Qeq_bool v (inject_Z z) = true) by (apply Qeq_bool_iff; exact Hv). congruence.
+    + destruct (IH Hin Hnr) as (A & B & Cc). rewrite A. unfold onehot. simpl. repeat split; [exact B|lia].
+Qed.
+
+(* the uniform draws (one per categorical parameter, in order) lie in the window of the category the point holds *)
+Fixpoint draws_in_window (cs : list component) (p : point) (us : list Q) : Prop :=
+  match cs, p with
+  | Cat es :: r, v :: t => match us with
+                           | u :: us' => 0 <= u /\ in_window (length es) (find_pos v es) u /\ draws_in_window r t us'
+                           | [] => False
+                           end
+  | _ :: r, _ :: t => draws_in_window r t us
+  | _, _ => True
+  end.
+
+Lemma stoch_roundtrip_cs powf T : pow_contract powf ->
+  forall cs p, Forall (fun c => wf_component c = true) cs -> Forall2 in_component cs p ->
+  forall us, draws_in_window cs p us ->
+  exists q, decode_gen (choose_draw powf T) cs us (enc cs p) = Some q /\ peq q p.
+Proof.
+  intros Hpow cs p Hwf H. induction H as [|c v cs' p' Hc _ IH]; intros us Hus.
+  - exists []. split; [reflexivity|constructor].
+  - inversion Hwf as [|? ? Hwc Hwr]; subst. destruct c as [lo hi|lo hi|es|es].
+    + destruct (IH Hwr us Hus) as (q' & Hq & Hpe). exists (v :: q').
+      split; [cbn [enc decode_gen]; rewrite Hq; reflexivity|constructor; [reflexivity|exact Hpe]].
+    + destruct (IH Hwr us Hus) as (q' & Hq & Hpe). destruct Hc as (z & Hz & Hr).
+      exists (inject_Z (round_half_even v) :: q').
+      split; [cbn [enc decode_gen]; rewrite Hq; reflexivity|]. constructor; [|exact Hpe].
+      rewrite (round_of_int _ _ Hz). symmetry. exact Hz.
+    + destruct Hc as (z & Hz & Hv). destruct us as [|u us']; [destruct Hus|]. destruct Hus as (Hu & Hw & Hus).
+      destruct (IH Hwr us' Hus) as (q' & Hq & Hpe).
+      destruct (indicator_onehot v z Hv es Hz (nodupb_NoDup _ (wf_cat es Hwc))) as (A & B & Cc).
+      set (k := find_pos v es) in *. exists (inject_Z z :: q'). split; [|constructor; [symmetry; exact Hv|exact Hpe]].
+      cbn [enc decode_gen]. rewrite A.
+      assert (Hl : length (onehot k (length es - k - 1)) = length es)
+        by (unfold onehot; rewrite app_length; simpl; rewrite !repeat_length; lia).
+      rewrite app_length, Hl.
+      assert (El : Nat.ltb (length es + length (enc cs' p')) (length es) = false) by (apply Nat.ltb_ge; lia).
+      rewrite El, (firstn_app_len _ _ _ Hl), (skipn_app_len _ _ _ Hl).
+      unfold choose_draw at 1.
+      assert (Hd : draw_ix u 0 (rel_probs powf T (onehot k (length es - k - 1))) 0 = Some k).
+      { apply draw_onehot_iff; [exact Hpow|exact Hu|]. replace (k + 1 + (length es - k - 1))%nat with (length es) by lia. exact Hw. }
+      rewrite Hd, B, Hq. reflexivity.
+    + destruct (IH Hwr us Hus) as (q' & Hq & Hpe). destruct Hc as (e & He & Hv).
+      exists (nearest v es :: q'). split; [cbn [enc decode_gen]; rewrite Hq; reflexivity|].
+      constructor; [apply (nearest_fix v es e He Hv)|exact Hpe].
+Qed.
+
+Lemma encode_enc d p : Forall2 in_component (comps d) p -> encode d p = enc (comps d) p.
+Proof.
+  intros Hin. unfold encode. destruct (has_cat (comps d)) eqn:E; [reflexivity|]. symmetry. apply enc_nocat; [exact E|].
+  clear - Hin. induction Hin; simpl; congruence.
+Qed.
+
+(* C09_decode_roundtrip: the stochastic decode of the encoding of an admissible configuration returns that configuration, for
+   every temperature (None, 0, below the minimum, any value) and every list of uniform draws lying in the windows *)
+Theorem decode_roundtrip powf d T us p : pow_contract powf -> wf_domain d = true -> Admissible d p ->
+  draws_in_window (comps d) p us -> exists q, decode_row powf d T us (encode d p) = Some q /\ peq q p.
+Proof.
+  intros Hpow Hwf [Hin _] Hus. rewrite (encode_enc d p Hin). unfold decode_row.
+  apply stoch_roundtrip_cs; [exact Hpow|apply wf_domain_comps; exact Hwf|exact Hin|exact Hus].
+Qed.
+
+(* the hypothesis is exact, block by block: at the one-hot vertex of category z = es[k], a draw u in [0,1) returns z if and only if
+   it lies in the window *)
+Theorem choose_draw_onehot_iff powf T u es k z : pow_contract powf -> NoDup es -> nth_error es k = Some z -> 0 <= u ->
+  (choose_draw powf T u (onehot k (length es - k - 1)) es = Some z <-> in_window (length es) k u).
+Proof.
+  intros Hpow Hnd Hk Hu. assert (Hkl : (k < length es)%nat) by (apply nth_error_Some; congruence).
+  pose proof (draw_onehot_iff powf T k (length es - k - 1) u Hpow Hu) as H.
+  replace (k + 1 + (length es - k - 1))%nat with (length es) in H by lia. rewrite <- H. unfold choose_draw.
+  destruct (draw_ix u 0 (rel_probs powf T (onehot k (length es - k - 1))) 0) as [j|] eqn:E.
+  - split; [|intros E'; injection E' as ->; exact Hk]. intros Hj. f_equal.
+    apply (proj1 (NoDup_nth_error es) Hnd); [apply nth_error_Some; congruence|congruence].
+  - split; discriminate.
+Qed.
+
+(* uniform sufficient condition on the draws: each u in [m*1e-300, 1 - m*1e-300], m the largest number of categories *)
+Definition max_cats (cs : list component) : nat := fold_right (fun c m => Nat.max (width c) m) O cs.
+Lemma draws_uniform_window : forall cs p us, Forall (fun c => wf_component c = true) cs -> Forall2 in_component cs p ->
+  forall m, (max_cats cs <= m)%nat -> (length (filter is_cat cs) <= length us)%nat ->
+  Forall (fun u => nQ m * eps300 <= u /\ u <= 1 - nQ m * eps300) us -> draws_in_window cs p us.
+Proof.
+  intros cs p us Hwf H. revert us. induction H as [|c v cs' p' Hc _ IH]; intros us m Hm Hl Hu; [exact I|].
+  inversion Hwf as [|? ? Hwc Hwr]; subst. cbn [max_cats fold_right] in Hm. fold (max_cats cs') in Hm.
+  destruct c as [lo hi|lo hi|es|es]; cbn [draws_in_window]; cbn [filter is_cat] in Hl.
+  1,2,4: apply (IH Hwr us m); [lia|exact Hl|exact Hu].
+  destruct us as [|u us']; [simpl in Hl; lia|]. inversion Hu as [|? ? [L U] Hu']; subst.
+  destruct Hc as (z & Hz & Hv). destruct (indicator_onehot v z Hv es Hz (nodupb_NoDup _ (wf_cat es Hwc))) as (_ & _ & Hk).
+  cbn [width] in Hm. split; [|split].
+  - pose proof (Qmult_le_0_compat _ _ (nQ_nonneg m) (Qlt_le_weak _ _ eps300_pos)). lra.
+  - apply (in_window_uniform (length es) m); [exact Hk|lia|exact L|exact U].
+  - apply (IH Hwr us' m); [lia|simpl in Hl; lia|exact Hu'].
+Qed.
+
+Theorem decode_roundtrip_uniform powf d T us p : pow_contract powf -> wf_domain d = true -> Admissible d p ->
+  (length (filter is_cat (comps d)) <= length us)%nat ->
+  Forall (fun u => nQ (max_cats (comps d)) * eps300 <= u /\ u <= 1 - nQ (max_cats (comps d)) * eps300) us ->
+  exists q, decode_row powf d T us (encode d p) = Some q /\ peq q p.
+Proof.
+  intros Hpow Hwf Ha Hl Hu. apply decode_roundtrip; try assumption. destruct Ha as [Hin _].
+  apply (draws_uniform_window _ _ _ (wf_domain_comps d Hwf) Hin (max_cats (comps d))); [lia|exact Hl|exact Hu].
+Qed.
+
+(* the converse: when the decode of the encoding returns the configuration, every draw was in its window *)
+Lemma stoch_roundtrip_cs_conv powf T : pow_contract powf ->
+  forall cs p, Forall (fun c => wf_component c = true) cs -> Forall2 in_component cs p ->
+  forall us q, Forall (fun u => 0 <= u) us ->
+  decode_gen (choose_draw powf T) cs us (enc cs p) = Some q -> peq q p -> draws_in_window cs p us.
+Proof.
+  intros Hpow cs p Hwf H. induction H as [|c v cs' p' Hc _ IH]; intros us q Hus Hd Hpe; [exact I|].
+  inversion Hwf as [|? ? Hwc Hwr]; subst.
+  assert (Hscalar : is_cat c = false -> draws_in_window (c :: cs') (v :: p') us).
+  { intros Hcat. destruct c as [lo hi|lo hi|es|es]; try discriminate; cbn [enc decode_gen] in Hd;
+      (destruct (decode_gen (choose_draw powf T) cs' us (enc cs' p')) as [q'|] eqn:E; [|discriminate]);
+      injection Hd as <-; inversion Hpe; subst; cbn [draws_in_window]; apply (IH Hwr us q'); assumption. }
+  destruct c as [lo hi|lo hi|es|es]; try (apply Hscalar; reflexivity). clear Hscalar.
+  destruct Hc as (z & Hz & Hv). pose proof (nodupb_NoDup _ (wf_cat es Hwc)) as Hnd.
+  destruct (indicator_onehot v z Hv es Hz Hnd) as (A & B & Cc).
+  set (k := find_pos v es) in *. cbn [enc decode_gen] in Hd. rewrite A in Hd.
+  assert (Hl : length (onehot k (length es - k - 1)) = length es)
+    by (unfold onehot; rewrite app_length; simpl; rewrite !repeat_length; lia).
+  rewrite app_length, Hl in Hd.
+  assert (El : Nat.ltb (length es + length (enc cs' p')) (length es) = false) by (apply Nat.ltb_ge; lia).
+  rewrite El, (firstn_app_len _ _ _ Hl), (skipn_app_len _ _ _ Hl) in Hd.
+  destruct us as [|u us']; [discriminate|]. inversion Hus as [|? ? Hu Hus']; subst.
+  destruct (choose_draw powf T u (onehot k (length es - k - 1)) es) as [c|] eqn:Ec; [|discriminate].
+  destruct (decode_gen (choose_draw powf T) cs' us' (enc cs' p')) as [q'|] eqn:E; [|discriminate].
+  injection Hd as <-. inversion Hpe as [|? ? ? ? Hcv Hpe']; subst.
+  assert (c = z) by (rewrite Hv in Hcv; apply (proj1 (inject_Z_injective _ _)) in Hcv; exact Hcv). subst c.
+  cbn [draws_in_window]. fold k. split; [exact Hu|]. split.
+  - apply (choose_draw_onehot_iff powf T u es k z Hpow Hnd B Hu). exact Ec.
+  - apply (IH Hwr us' q'); assumption.
+Qed.
+
+(* C09_decode_roundtrip, exact form: for draws in [0,1) (only 0 <= u is used), the stochastic decode of the encoding of an
+   admissible configuration returns that configuration IF AND ONLY IF every draw lies in its window *)
+Theorem decode_roundtrip_iff powf d T us p : pow_contract powf -> wf_domain d = true -> Admissible d p ->
+  Forall (fun u => 0 <= u) us ->
+  ((exists q, decode_row powf d T us (encode d p) = Some q /\ peq q p) <-> draws_in_window (comps d) p us).
+Proof.
+  intros Hpow Hwf Ha Hus. split; [|apply decode_roundtrip; assumption].
+  destruct Ha as [Hin _]. intros (q & Hq & Hpe). rewrite (encode_enc d p Hin) in Hq. unfold decode_row in Hq.
+  eapply stoch_roundtrip_cs_conv; try eassumption. apply wf_domain_comps. exact Hwf.
+Qed.
+
+(* without the hypothesis on the draws the round trip is false: the draw u = 0 (a value numpy's random_sample can return) at the
+   one-hot vertex of the third category returns the first category *)
+Lemma pow_int_contract : pow_contract pow_int.
+Proof.
+  intros e He. unfold pow_int. destruct (Qnum (Qred e)) eqn:En; [| |].
+  1,3: split; reflexivity.
+  destruct (Qden (Qred e)); try (split; reflexivity). split.
+  - rewrite Qred_correct. apply Qpower_positive_0.
+  - rewrite Qred_correct. apply Qpower_positive_1.
+Qed.
+Theorem decode_roundtrip_all_draws_refuted :
+  exists d T us p, wf_domain d = true /\ Admissible d p /\ Forall (fun u => 0 <= u /\ u < 1) us /\
+    ~ (exists q, decode_row pow_int d T us (encode d p) = Some q /\ peq q p).
+Proof.
+  exists {| comps := [Double (-2) 5; Cat [5; 1; 7]%Z]; cons := [] |}, None, [0], [(3#2); 7].
+  split; [reflexivity|]. split; [apply admissibleb_spec; reflexivity|].
+  split; [constructor; [split; [apply Qle_refl|reflexivity]|constructor]|].
+  intros (q & Hq & Hpe). vm_compute in Hq. injection Hq as <-.
+  inversion Hpe as [|? ? ? ? _ H2]; subst. inversion H2 as [|? ? ? ? H3 _]; subst. revert H3. compute. discriminate.
+Qed.
+
+(* ------------------------------------------------------------------ completeness of the integer-feasible snap *)
+(* some floor/ceil combination of the int-constrained coordinates of x satisfies every int constraint *)
+Definition has_feasible_vertex (d : domain) (x : row) : Prop :=
+  exists r, nbr_of (int_mask d) x r /\ sat_cons (comps d) (int_cons d) r = true.
+(* contract of numpy.random.shuffle: the oracle list of positions for each row is a permutation of the positions of that row's
+   feasible neighbours *)
+Fixpoint perms_ok (d : domain) (rnds : list (list (list bool))) (perms : list (list nat)) (xs : list row) : Prop :=
+  match xs with
+  | [] => True
+  | x :: r => Permutation (hd [] perms) (seq 0 (length (feasible_neighbors d (hd [] rnds) x))) /\
+              perms_ok d (tl rnds) (tl perms) r
+  end.
+(* what the first pass leaves for a row: a feasible neighbour of the row itself, or a hole when the row has none *)
+Definition row_snapped (d : domain) (x : row) (o : option row) : Prop :=
+  match o with
+  | Some f => sat_cons (comps d) (int_cons d) f = true /\ nbr_of (int_mask d) x f
+  | None => ~ has_feasible_vertex d x
+  end.
+
+Lemma permute_nonempty {A} (perm : list nat) (l : list A) :
+  Permutation perm (seq 0 (length l)) -> l <> [] -> permute perm l <> [].
+Proof.
+  intros Hp Hl. destruct l as [|a l]; [congruence|].
+  assert (H0 : In O perm). { eapply Permutation_in; [symmetry; exact Hp|]. simpl. left. reflexivity. }
+  assert (Ha : In a (permute perm (a :: l))).
+  { unfold permute. apply in_flat_map. exists O. split; [exact H0|]. simpl. left. reflexivity. }
+  intros E. rewrite E in Ha. exact Ha.
+Qed.
+
+Lemma feasible_vertex_found d rnd x : (count_true (int_mask d) <= max_grid_dim)%nat ->
+  has_feasible_vertex d x -> feasible_neighbors d rnd x <> [].
+Proof.
+  intros Hc (r & Hn & Hs) E.
+  assert (Hin : In r (feasible_neighbors d rnd x)).
+  { unfold feasible_neighbors. apply filter_In. split; [|exact Hs]. unfold int_neighbors.
+    apply Nat.leb_le in Hc. rewrite Hc. apply lattice_spec. exact Hn. }
+  rewrite E in Hin. exact Hin.
+Qed.
+
+Lemma snap_pass_complete d n : (count_true (int_mask d) <= max_grid_dim)%nat ->
+  forall xs rnds perms padding o p, perms_ok d rnds perms xs ->
+  snap_pass d n rnds perms xs padding = (o, p) -> Forall2 (row_snapped d) xs o.
+Proof.
+  intros Hc. induction xs as [|x r IH]; intros rnds perms padding o p Hp H.
+  - simpl in H. injection H as <- <-. constructor.
+  - destruct Hp as [Hp1 Hp2]. cbn [snap_pass] in H.
+    destruct (permute (hd [] perms) (feasible_neighbors d (hd [] rnds) x)) as [|f rest] eqn:Efn.
+    + destruct (snap_pass d n (tl rnds) (tl perms) r padding) as [o' p'] eqn:E. injection H as <- <-.
+      constructor; [|eapply IH; eassumption]. intros Hf.
+      apply (permute_nonempty _ _ Hp1 (feasible_vertex_found d (hd [] rnds) x Hc Hf)). exact Efn.
+    + match type of H with context [snap_pass d n (tl rnds) (tl perms) r ?pp] => set (padding' := pp) in * end.
+      destruct (snap_pass d n (tl rnds) (tl perms) r padding') as [o' p'] eqn:E. injection H as <- <-.
+      constructor; [|eapply IH; eassumption].
+      assert (Hin : In f (feasible_neighbors d (hd [] rnds) x)) by (apply (permute_In (hd [] perms)); rewrite Efn; left; reflexivity).
+      unfold feasible_neighbors in Hin. apply filter_In in Hin. destruct Hin as [Hn Hs].
+      split; [exact Hs|eapply int_neighbors_spec; exact Hn].
+Qed.
+
+(* the second pass, without the final numpy.delete: holes take the spare neighbours in order, remaining holes stay holes *)
+Fixpoint fill_opt (o : list (option row)) (padding : list row) : list (option row) :=
+  match o with
+  | [] => []
+  | Some f :: r => Some f :: fill_opt r padding
+  | None :: r => match padding with [] => None :: fill_opt r [] | f :: p => Some f :: fill_opt r p end
+  end.
+Definition somes {A} (l : list (option A)) : list A := flat_map (fun o => match o with Some a => [a] | None => [] end) l.
+
+Lemma snap_fill_somes : forall o padding, snap_fill o padding = somes (fill_opt o padding).
+Proof.
+  induction o as [|[f|] o IH]; intros padding; simpl; [reflexivity|rewrite IH; reflexivity|].
+  destruct padding as [|g p]; simpl; rewrite IH; reflexivity.
+Qed.
+Lemma fill_opt_keeps : forall o padding, Forall2 (fun a b => forall f, a = Some f -> b = Some f) o (fill_opt o padding).
+Proof.
+  induction o as [|[f|] o IH]; intros padding; simpl; [constructor|constructor; [auto|apply IH]|].
+  destruct padding as [|g p]; (constructor; [intros f H; discriminate|apply IH]).
+Qed.
+
+(* int_feasible_snap_complete, general form: the returned batch is a row-by-row list with only holes deleted, and a row that has
+   a feasible floor/ceil combination of its own is never a hole: it is replaced by one of its own feasible combinations *)
+Theorem int_feasible_snap_complete_rows d rnds perms xs :
+  (count_true (int_mask d) <= max_grid_dim)%nat -> perms_ok d rnds perms xs ->
+  exists filled, snap_feasible d rnds perms xs = somes filled /\
+    Forall2 (fun x o => has_feasible_vertex d x ->
+               exists f, o = Some f /\ sat_cons (comps d) (int_cons d) f = true /\ nbr_of (int_mask d) x f) xs filled.
+Proof.
+  intros Hc Hp. unfold snap_feasible. destruct (snap_pass d (length xs) rnds perms xs []) as [o p] eqn:E.
+  exists (fill_opt o p). split; [apply snap_fill_somes|].
+  pose proof (snap_pass_complete d (length xs) Hc xs rnds perms [] o p Hp E) as H1.
+  pose proof (fill_opt_keeps o p) as H2. revert H2. generalize (fill_opt o p). clear E Hp.
+  induction H1 as [|x oi xs' o' Hx _ IH]; intros fl H2; inversion H2; subst; [constructor|].
+  constructor; [|apply IH; assumption]. intros Hf. destruct oi as [f|]; [|exfalso; exact (Hx Hf)]. exists f. split; [auto|exact Hx].
+Qed.
+
+(* every row has a feasible combination (the property's "int-constraint sets with an integer solution near the point"):
+   no row is deleted or replaced by another row's neighbour; row i of the result is a feasible combination of row i *)
+Theorem int_feasible_snap_complete d rnds perms xs :
+  (count_true (int_mask d) <= max_grid_dim)%nat -> perms_ok d rnds perms xs -> Forall (has_feasible_vertex d) xs ->
+  Forall2 (fun x f => sat_cons (comps d) (int_cons d) f = true /\ nbr_of (int_mask d) x f) xs (snap_feasible d rnds perms xs).
+Proof.
+  intros Hc Hp Hall. destruct (int_feasible_snap_complete_rows d rnds perms xs Hc Hp) as (filled & -> & H).
+  clear Hp. revert Hall. induction H as [|x o xs' fl Hx _ IH]; intros Hall; [constructor|].
+  inversion Hall as [|? ? Hx1 Hxs]; subst.
+  destruct (Hx Hx1) as (f & -> & Hf). simpl. constructor; [exact Hf|apply IH; exact Hxs].
+Qed.
+
+(* ------------------------------------------------------------------ the floor/ceil combinations stay in the relaxed box *)
+Lemma nbr_of_false_prefix : forall n m x r, (n <= length x)%nat -> nbr_of (repeat false n ++ m) x r ->
+  exists r', r = firstn n x ++ r' /\ nbr_of m (skipn n x) r'.
+Proof.
+  induction n as [|n IH]; intros m x r Hl H; [exists r; split; [reflexivity|exact H]|].
+  destruct x as [|v t]; [simpl in Hl; lia|]. cbn [repeat app nbr_of] in H. destruct r as [|o r0]; [destruct H|].
+  destruct H as [-> H]. destruct (IH m t r0) as (r' & -> & Hr); [simpl in Hl; lia|exact H|].
+  exists r'. split; [reflexivity|exact Hr].
+Qed.
+
+Lemma any_nonzero_int c cs ws : Forall (fun w => forall2b (weight_ok CInt) w (c :: cs) = true) ws ->
+  any_nonzero ws = true -> is_int c = true.
+Proof.
+  induction 1 as [|w ws Hw _ IH]; simpl; [discriminate|]. rewrite orb_true_iff. intros [H|H]; [|apply IH; exact H].
+  destruct w as [|a w']; [simpl in Hw; discriminate|]. cbn [forall2b] in Hw. apply andb_true_iff in Hw. destruct Hw as [Ha _].
+  simpl in H. apply negb_true_iff in H. unfold weight_ok in Ha. rewrite H in Ha. destruct c; simpl in *; congruence.
+Qed.
+Lemma tl_weight_ok c cs ws : Forall (fun w => forall2b (weight_ok CInt) w (c :: cs) = true) ws ->
+  Forall (fun w => forall2b (weight_ok CInt) w cs = true) (map (@tl Q) ws).
+Proof.
+  induction 1 as [|w ws Hw _ IH]; simpl; constructor; [|exact IH].
+  destruct w as [|a w']; [simpl in Hw; discriminate|]. cbn [forall2b] in Hw. apply andb_true_iff in Hw. simpl. tauto.
+Qed.
+
+Lemma floor_ceil_in_range (lo hi : Z) v : inject_Z lo <= v -> v <= inject_Z hi ->
+  (inject_Z lo <= inject_Z (Qfloor v) /\ inject_Z (Qfloor v) <= inject_Z hi) /\
+  (inject_Z lo <= inject_Z (Qceiling v) /\ inject_Z (Qceiling v) <= inject_Z hi).
+Proof.
+  intros Hlo Hhi. pose proof (Qfloor_le v) as F. pose proof (Qle_ceiling v) as Cc.
+  pose proof (Qfloor_resp_le _ _ Hlo) as F2. rewrite Qfloor_Z in F2.
+  pose proof (Qceiling_resp_le _ _ Hhi) as C2. rewrite Qceiling_Z in C2.
+  rewrite Zle_Qle in F2, C2. repeat split; lra.
+Qed.
+
+Lemma nbr_in_box_cs : forall cs ws x r, Forall (fun w => forall2b (weight_ok CInt) w cs = true) ws ->
+  in_box (flat_map box_of cs) x -> nbr_of (cmask cs ws) x r -> in_box (flat_map box_of cs) r.
+Proof.
+  induction cs as [|c cs IH]; intros ws x r Hws Hb Hn.
+  - simpl in Hn. subst r. exact Hb.
+  - assert (Hscalar : forall lo hi : Q, box_of c = [(lo, hi)] -> is_cat c = false ->
+              (any_nonzero ws = true -> exists zl zh, lo = inject_Z zl /\ hi = inject_Z zh) ->
+              cmask (c :: cs) ws = any_nonzero ws :: cmask cs (map (@tl Q) ws) -> in_box (flat_map box_of (c :: cs)) r).
+    { intros lo hi Hbox _ Hint Hm. rewrite Hm in Hn. cbn [flat_map] in Hb |- *. rewrite Hbox in Hb |- *.
+      simpl in Hb. inversion Hb as [|? v ? t Hv Ht]; subst. simpl in Hv.
+      destruct (any_nonzero ws) eqn:E; cbn [nbr_of] in Hn; (destruct r as [|o r0]; [destruct Hn|]); destruct Hn as [Ho Hn].
+      - destruct (Hint eq_refl) as (zl & zh & -> & ->).
+        destruct (floor_ceil_in_range zl zh v (proj1 Hv) (proj2 Hv)) as [Hf Hc].
+        simpl. constructor; [destruct Ho as [->| ->]; simpl; assumption|].
+        apply (IH (map (@tl Q) ws) t r0); [apply (tl_weight_ok c); exact Hws|exact Ht|exact Hn].
+      - subst o. simpl. constructor; [exact Hv|].
+        apply (IH (map (@tl Q) ws) t r0); [apply (tl_weight_ok c); exact Hws|exact Ht|exact Hn]. }
+    destruct c as [lo hi|lo hi|es|es].
+    + apply (Hscalar lo hi); [reflexivity|reflexivity| |reflexivity].
+      intros E. pose proof (any_nonzero_int _ _ _ Hws E). discriminate.
+    + apply (Hscalar (inject_Z lo) (inject_Z hi)); [reflexivity|reflexivity| |reflexivity]. intros _. exists lo, hi. auto.
+    + clear Hscalar. cbn [cmask] in Hn. cbn [flat_map box_of] in Hb |- *.
+      apply Forall2_app_inv_l in Hb. destruct Hb as (x1 & x2 & H1 & H2 & ->).
+      pose proof (Forall2_len _ _ _ H1) as Hl. rewrite repeat_length in Hl.
+      destruct (nbr_of_false_prefix (length es) (cmask cs (map (@tl Q) ws)) (x1 ++ x2) r) as (r' & -> & Hr);
+        [rewrite app_length; lia|exact Hn|].
+      rewrite (firstn_app_len _ _ _ (eq_sym Hl)). rewrite (skipn_app_len _ _ _ (eq_sym Hl)) in Hr.
+      apply Forall2_app; [exact H1|]. apply (IH (map (@tl Q) ws) x2 r'); [apply (tl_weight_ok (Cat es)); exact Hws|exact H2|exact Hr].
+    + apply (Hscalar (list_min es) (list_max es)); [reflexivity|reflexivity| |reflexivity].
+      intros E. pose proof (any_nonzero_int _ _ _ Hws E). discriminate.
+Qed.
+
+(* a floor/ceil combination of the int-constrained coordinates of a point of the relaxed box is again in the relaxed box
+   (the int bounds are integers), so "satisfies the int constraints" is all the feasibility filter has to test *)
+Theorem nbr_in_box d x r : wf_domain d = true -> in_box (one_hot_box d) x -> nbr_of (int_mask d) x r -> in_box (one_hot_box d) r.
+Proof.
+  intros Hwf Hb Hn. unfold one_hot_box, int_mask in *. eapply nbr_in_box_cs; [|exact Hb|exact Hn].
+  apply Forall_forall. intros w Hw. apply in_map_iff in Hw. destruct Hw as (k & <- & Hk).
+  unfold int_cons in Hk. apply filter_In in Hk. destruct Hk as [Hk Ht].
+  pose proof (wf_domain_cons d k Hwf Hk) as H. destruct (cty k); [discriminate|exact H].
+Qed.
+
+(* ------------------------------------------------------------------ the categorical neighbour lattice *)
+(* r is x with every categorical block replaced by a one-hot vertex (the unit vector at some position of the block) and every
+   other coordinate kept *)
+Fixpoint cat_vertex (cs : list component) (x r : row) : Prop :=
+  match cs with
+  | [] => r = x
+  | Cat es :: cs' =>
+      exists i r', (i < length es)%nat /\ r = unit_vec (length es) i ++ r' /\ cat_vertex cs' (skipn (length es) x) r'
+  | _ :: cs' => match x with
+                | v :: t => exists r', r = v :: r' /\ cat_vertex cs' t r'
+                | [] => r = []
+                end
+  end.
+(* product_of_categories *)
+Fixpoint cat_count (cs : list component) : nat :=
+  match cs with [] => 1%nat | Cat es :: r => (length es * cat_count r)%nat | _ :: r => cat_count r end.
+
+Theorem cat_lattice_spec : forall cs x r, In r (cat_lattice cs x) <-> cat_vertex cs x r.
+Proof.
+  induction cs as [|c cs IH]; intros x r.
+  - simpl. split; [intros [H|[]]; symmetry; exact H|intros ->; left; reflexivity].
+  - destruct c as [lo hi|lo hi|es|es]; cbn [cat_lattice cat_vertex].
+    1,2,4: destruct x as [|v t];
+      [simpl; split; [intros [H|[]]; symmetry; exact H|intros ->; left; reflexivity]
+      |rewrite in_map_iff; split;
+        [intros (r' & <- & H); exists r'; split; [reflexivity|apply IH; exact H]
+        |intros (r' & -> & H); exists r'; split; [reflexivity|apply IH; exact H]]].
+    rewrite in_flat_map. split.
+    + intros (i & Hi & H). apply in_seq in Hi. apply in_map_iff in H. destruct H as (r' & <- & H).
+      exists i, r'. split; [lia|]. split; [reflexivity|apply IH; exact H].
+    + intros (i & r' & Hi & -> & H). exists i. split; [apply in_seq; lia|]. apply in_map_iff.
+      exists r'. split; [reflexivity|apply IH; exact H].
+Qed.
+
+Lemma flat_map_length_const {A B} (f : A -> list B) n : forall l, (forall a, In a l -> length (f a) = n) ->
+  length (flat_map f l) = (length l * n)%nat.
+Proof.
+  induction l as [|a l IH]; intros H; [reflexivity|]. simpl. rewrite app_length, IH, H; [reflexivity|left; reflexivity|].
+  intros b Hb. apply H. right. exact Hb.
+Qed.
+
+Theorem cat_lattice_length : forall cs x, (one_hot_dim cs <= length x)%nat -> length (cat_lattice cs x) = cat_count cs.
+Proof.
+  induction cs as [|c cs IH]; intros x Hl; [reflexivity|].
+  destruct c as [lo hi|lo hi|es|es]; cbn [cat_lattice cat_count]; cbn [one_hot_dim fold_right width] in Hl;
+    fold (one_hot_dim cs) in Hl.
+  1,2,4: destruct x as [|v t]; [simpl in Hl; lia|]; rewrite map_length; apply IH; simpl in Hl; lia.
+  rewrite (flat_map_length_const _ (cat_count cs)); [rewrite seq_length; reflexivity|].
+  intros i _. rewrite map_length. apply IH. rewrite skipn_length. lia.
+Qed.
+
+(* no duplicates, up to Qeq on the coordinates *)
+Lemma peq_refl a : peq a a.
+Proof. induction a; constructor; [reflexivity|assumption]. Qed.
+Lemma peq_sym a b : peq a b -> peq b a.
+Proof. induction 1; constructor; [symmetry; assumption|assumption]. Qed.
+Lemma peq_trans a b c : peq a b -> peq b c -> peq a c.
+Proof.
+  intros H. revert c. induction H as [|x y a b Hxy _ IH]; intros c Hc; inversion Hc; subst; constructor.
+  - etransitivity; eassumption.
+  - apply IH. assumption.
+Qed.
+Lemma peq_Equivalence : Equivalence peq.
+Proof. split; [exact peq_refl|exact peq_sym|exact peq_trans]. Qed.
+
+Lemma peq_app_inv a : forall a' b b', length a = length a' -> peq (a ++ b) (a' ++ b') -> peq a a' /\ peq b b'.
+Proof.
+  induction a as [|x a IH]; intros [|y a'] b b' Hl H; simpl in Hl; try lia.
+  - split; [constructor|exact H].
+  - simpl in H. inversion H; subst. destruct (IH a' b b') as [H1 H2]; [lia|assumption|].
+    split; [constructor; assumption|exact H2].
+Qed.
+
+Lemma unit_vec_peq_inj n i j : (i < n)%nat -> (j < n)%nat -> peq (unit_vec n i) (unit_vec n j) -> i = j.
+Proof.
+  intros Hi Hj H.
+  assert (Hn : forall k, (k < n)%nat -> nth k (unit_vec n i) 0 == nth k (unit_vec n j) 0).
+  { pose proof (unit_vec_length n i) as L1. pose proof (unit_vec_length n j) as L2. revert L1 L2 H.
+    generalize (unit_vec n i) (unit_vec n j). clear. intros a b L1 L2 H. revert n L1 L2.
+    induction H as [|x y a b Hxy _ IH]; intros n L1 L2 k Hk; simpl in *; [lia|].
+    destruct k as [|k]; [exact Hxy|]. destruct n as [|n]; [lia|]. apply (IH n); lia. }
+  specialize (Hn i Hi). rewrite !nth_unit in Hn by assumption. rewrite Nat.eqb_refl in Hn.
+  destruct (Nat.eqb i j) eqn:E; [apply Nat.eqb_eq; exact E|]. exfalso. revert Hn. compute. discriminate.
+Qed.
+
+Lemma InA_map_inv {A B} (eqA : A -> A -> Prop) (eqB : B -> B -> Prop) (f : A -> B) b l :
+  InA eqB b (map f l) -> exists a, In a l /\ eqB b (f a).
+Proof.
+  induction l as [|x l IH]; simpl; intros H; inversion H; subst.
+  - exists x. split; [left; reflexivity|assumption].
+  - destruct (IH H1) as (a & Ha & Hb). exists a. split; [right; assumption|assumption].
+Qed.
+
+Lemma NoDupA_map_inj {A} (eqA : A -> A -> Prop) (f : A -> A) :
+  (forall a b, eqA (f a) (f b) -> eqA a b) -> forall l, NoDupA eqA l -> NoDupA eqA (map f l).
+Proof.
+  intros Hinj l H. induction H as [|x l Hx _ IH]; simpl; constructor; [|exact IH].
+  intros Hin. apply Hx. apply (InA_map_inv eqA eqA) in Hin. destruct Hin as (a & Ha & Hb).
+  apply InA_alt. exists a. split; [apply Hinj; exact Hb|exact Ha].
+Qed.
+
+Lemma NoDupA_flat_map {I} (f : I -> list row) : forall l, NoDup l ->
+  (forall i, In i l -> NoDupA peq (f i)) ->
+  (forall i j a, In i l -> In j l -> InA peq a (f i) -> InA peq a (f j) -> i = j) ->
+  NoDupA peq (flat_map f l).
+Proof.
+  induction l as [|i l IH]; intros Hnd Hp Hd; simpl; [constructor|].
+  inversion Hnd as [|? ? Hi Hl]; subst.
+  apply NoDupA_app; [exact peq_Equivalence|apply Hp; left; reflexivity| |].
+  - apply IH; [exact Hl|intros j Hj; apply Hp; right; exact Hj|].
+    intros j k a Hj Hk. apply Hd; right; assumption.
+  - intros a Ha Hb. apply InA_alt in Hb. destruct Hb as (b & Hab & Hb). apply in_flat_map in Hb.
+    destruct Hb as (j & Hj & Hb). apply Hi.
+    rewrite (Hd i j a (or_introl eq_refl) (or_intror Hj) Ha); [exact Hj|].
+    apply InA_alt. exists b. split; assumption.
+Qed.
+
+Theorem cat_lattice_NoDup : forall cs x, NoDupA peq (cat_lattice cs x).
+Proof.
+  induction cs as [|c cs IH]; intros x; [simpl; constructor; [intros H; inversion H|constructor]|].
+  destruct c as [lo hi|lo hi|es|es]; cbn [cat_lattice].
+  1,2,4: destruct x as [|v t]; [constructor; [intros H; inversion H|constructor]|];
+    apply NoDupA_map_inj; [|apply IH]; intros a b H; inversion H; assumption.
+  apply NoDupA_flat_map; [apply seq_NoDup| |].
+  - intros i _. apply NoDupA_map_inj; [|apply IH]. intros a b H.
+    apply (peq_app_inv (unit_vec (length es) i) (unit_vec (length es) i)) in H; [tauto|reflexivity].
+  - intros i j a Hi Hj Ha Hb. apply in_seq in Hi. apply in_seq in Hj.
+    apply (InA_map_inv peq peq) in Ha. apply (InA_map_inv peq peq) in Hb.
+    destruct Ha as (ra & _ & Ha). destruct Hb as (rb & _ & Hb).
+    assert (H : peq (unit_vec (length es) i ++ ra) (unit_vec (length es) j ++ rb))
+      by (eapply peq_trans; [apply peq_sym; exact Ha|exact Hb]).
+    apply peq_app_inv in H; [|rewrite !unit_vec_length; reflexivity]. destruct H as [H _].
+    apply (unit_vec_peq_inj (length es)); [lia|lia|exact H].
+Qed.
+
+(* the endpoint's function: all rows *)
+Theorem neighboring_cat_points_spec d xs r :
+  In r (neighboring_cat_points d xs) <-> exists x, In x xs /\ cat_vertex (comps d) x r.
+Proof.
+  unfold neighboring_cat_points. rewrite in_flat_map. split; intros (x & Hx & H); exists x; (split; [exact Hx|]); apply cat_lattice_spec; exact H.
 Qed.
